@@ -55,12 +55,13 @@ func runC15(t *testing.T, rc *core.RunCtx) {
 	for i := 0; i < tp.Draw(9); i++ {
 		evs = append(evs, c15Ev{
 			after: []time.Duration{0, 300 * time.Millisecond, 2 * time.Second, 7 * time.Second, 20 * time.Second}[tp.Draw(5)],
-			kind:  []string{"kill", "err", "err", "err", "cut", "heartbeat", "checkpool", "work", "work"}[tp.Draw(9)],
+			kind:  []string{"kill", "err", "err", "err", "cut", "heartbeat", "checkpool", "work", "work", "fork-burst"}[tp.Draw(10)],
 			n:     tp.Draw(12),
 		})
 	}
 	instant := tp.Draw(3) != 0
-	rc.Desc = fmt.Sprintf("min=%d max=%d warm=%d errKill=%d heartbeat=%v forks=%v events=%v instantNet=%v", mn, mx, warm, errKill, hb, forks, evs, instant)
+	parkAppended := tp.Draw(3) == 0
+	rc.Desc = fmt.Sprintf("min=%d max=%d warm=%d errKill=%d heartbeat=%v forks=%v events=%v instantNet=%v parkQueued=%v", mn, mx, warm, errKill, hb, forks, evs, instant, parkAppended)
 	rc.Shape = rc.Desc
 
 	core.Bubble(t, rc, func(s *core.Sim) {
@@ -68,7 +69,13 @@ func runC15(t *testing.T, rc *core.RunCtx) {
 		s.MaxSim = 6 * time.Minute
 		s.MaxStep = 8000
 		s.TimeWeight = 0
-		s.HookFilter = nil
+		supID := ""
+		// mutations of the supervisor machine issued by its own forked
+		// goroutines (fork steps, error reports) wait after they are queued, so
+		// that several of them can be in the queue before any of them runs
+		s.HookFilter = func(pt, detail string) bool {
+			return parkAppended && pt == "qm.appended" && detail == supID
+		}
 		nw := simnet.New(s)
 		nw.Instant = instant
 		core.UseNet(nw)
@@ -83,6 +90,7 @@ func runC15(t *testing.T, rc *core.RunCtx) {
 			s.Fail("harness/supervisor", "NewSupervisor: %v", err)
 			return
 		}
+		supID = sup.Mach.Id()
 		sup.Heartbeat = hb
 		sup.WorkerErrKill = errKill
 		effMin := min(mn, mx)
@@ -153,7 +161,7 @@ func runC15(t *testing.T, rc *core.RunCtx) {
 		iPoolReady, iStart, iErrWorker := idx(ssS.PoolReady), idx(ssS.Start), idx(ssS.ErrWorker)
 		errCount := map[string]int{}
 		pendingKill := map[string]int{} // addr -> error count when the kill became due
-		maxTracked := 0
+		maxTracked, prevTracked := 0, 0
 		sup.Mach.BindTracer(&rpcTracer{TracerNoOp: &am.TracerNoOp{Id: "c15"}, end: func(tx *am.Transition) {
 			if s.Failed() || len(tx.TimeAfter) <= iPoolReady || len(tx.TimeBefore) <= iPoolReady {
 				return
@@ -168,10 +176,13 @@ func runC15(t *testing.T, rc *core.RunCtx) {
 				s.Fail("C15/over-max", "after %s%v the supervisor tracks %d workers, Max is %d: %+v", tx.Type(), called, tracked, mx, ws)
 				return
 			}
-			if accepted && tx.Type() == am.MutationAdd && (slicesContains(called, ssS.ForkWorker) || slicesContains(called, ssS.ForkingWorker)) && tracked >= mx {
-				s.Fail("C15/fork-at-max", "%v was accepted while %d workers are tracked and Max is %d", called, tracked, mx)
+			// (the fork states' own handlers may start tracking the new worker:
+			// what counts is how many were tracked when the transition began)
+			if accepted && tx.Type() == am.MutationAdd && (slicesContains(called, ssS.ForkWorker) || slicesContains(called, ssS.ForkingWorker)) && prevTracked >= mx {
+				s.Fail("C15/fork-at-max", "%v was accepted while %d workers were tracked and Max is %d", called, prevTracked, mx)
 				return
 			}
+			prevTracked = tracked
 			was, is := am.IsActiveTick(tx.TimeBefore[iPoolReady]), am.IsActiveTick(tx.TimeAfter[iPoolReady])
 			mirrorReady, cleanReady := 0, 0
 			for _, w := range ws {
@@ -258,6 +269,12 @@ func runC15(t *testing.T, rc *core.RunCtx) {
 						id := live[ev.n%len(live)]
 						s.Logf("event: cut connection %d", id)
 						nw.Cut(id)
+					}
+				case "fork-burst":
+					// ForkWorker is a state of the supervisor's public machine:
+					// anybody may ask for forks, whatever the pool is doing
+					for i := 0; i < 1+ev.n%4; i++ {
+						sup.Mach.Add1(ssS.ForkWorker, nil)
 					}
 				case "heartbeat":
 					sup.Mach.Add1(ssS.Heartbeat, nil)
